@@ -1,6 +1,7 @@
 package main
 
 import (
+	"runtime"
 	"encoding/json"
 	"flag"
 	"fmt"
@@ -333,7 +334,10 @@ func cmdCheck(args []string) int {
 	}
 	workers := 14
 	if *tier == "thorough" {
-		workers = 5
+		workers = 5 // three solvers race per obligation in this tier
+	}
+	if n := runtime.NumCPU(); workers > n {
+		workers = n // solver budgets are wall-clock: never oversubscribe the machine
 	}
 	dischargeAll(all, *tier, to, workers)
 	vac := runSmokes(smokes, workers)
